@@ -345,3 +345,41 @@ pub fn scalar_raw(bytes: [u8; 32]) -> crate::scalar::Scalar { crate::scalar::Sca
 #[no_mangle] #[inline(never)] pub fn vp_sc_batch_invert(a: &mut [Scalar]) -> Scalar { Scalar::batch_invert(a) }
 #[no_mangle] #[inline(never)] pub fn vp_sc_sum3(a: &[Scalar; 3]) -> Scalar { a.iter().sum() }
 #[no_mangle] #[inline(never)] pub fn vp_sc_product3(a: &[Scalar; 3]) -> Scalar { a.iter().product() }
+
+// ------------------------------------------------------------------ ff / group trait glue (C17, feature "group")
+#[cfg(feature = "group")]
+pub mod ffg {
+    use super::*;
+    use group::ff::{Field, PrimeField, FromUniformBytes};
+    use group::{Group, GroupEncoding, cofactor::CofactorGroup};
+    macro_rules! sc_const { ($name:ident, $e:expr) => { #[no_mangle] #[inline(never)] pub fn $name() -> &'static Scalar { &$e } } }
+    sc_const!(vp_ff_two_inv, <Scalar as PrimeField>::TWO_INV);
+    sc_const!(vp_ff_mult_gen, <Scalar as PrimeField>::MULTIPLICATIVE_GENERATOR);
+    sc_const!(vp_ff_root_of_unity, <Scalar as PrimeField>::ROOT_OF_UNITY);
+    sc_const!(vp_ff_root_of_unity_inv, <Scalar as PrimeField>::ROOT_OF_UNITY_INV);
+    sc_const!(vp_ff_delta, <Scalar as PrimeField>::DELTA);
+    sc_const!(vp_ff_zero, <Scalar as Field>::ZERO);
+    sc_const!(vp_ff_one, <Scalar as Field>::ONE);
+    #[no_mangle] #[inline(never)] pub fn vp_ff_s() -> u32 { <Scalar as PrimeField>::S }
+    #[no_mangle] #[inline(never)] pub fn vp_ff_num_bits() -> u32 { <Scalar as PrimeField>::NUM_BITS }
+    #[no_mangle] #[inline(never)] pub fn vp_ff_capacity() -> u32 { <Scalar as PrimeField>::CAPACITY }
+    #[no_mangle] #[inline(never)] pub fn vp_ff_modulus(out: &mut [u8; 80]) -> usize { let m = <Scalar as PrimeField>::MODULUS.as_bytes(); let mut i = 0; while i < m.len() && i < 80 { out[i] = m[i]; i += 1; } m.len() }
+    #[no_mangle] #[inline(never)] pub fn vp_ff_sqrt(a: &Scalar, out: &mut Scalar) -> u8 { let r = <Scalar as Field>::sqrt(a); let ok = r.is_some().unwrap_u8(); *out = r.unwrap_or(Scalar::ZERO); ok }
+    #[no_mangle] #[inline(never)] pub fn vp_ff_from_repr(b: &[u8; 32], out: &mut Scalar) -> u8 { let r = <Scalar as PrimeField>::from_repr(*b); let ok = r.is_some().unwrap_u8(); *out = r.unwrap_or(Scalar::ZERO); ok }
+    #[no_mangle] #[inline(never)] pub fn vp_ff_from_repr_vartime(b: &[u8; 32], out: &mut Scalar) -> u8 { match <Scalar as PrimeField>::from_repr_vartime(*b) { Some(s) => { *out = s; 1 } None => 0 } }
+    #[no_mangle] #[inline(never)] pub fn vp_ff_to_repr(a: &Scalar) -> [u8; 32] { <Scalar as PrimeField>::to_repr(a) }
+    #[no_mangle] #[inline(never)] pub fn vp_ff_is_odd(a: &Scalar) -> u8 { <Scalar as PrimeField>::is_odd(a).unwrap_u8() }
+    #[no_mangle] #[inline(never)] pub fn vp_ff_invert_flag(a: &Scalar) -> u8 { <Scalar as Field>::invert(a).is_some().unwrap_u8() }
+    #[no_mangle] #[inline(never)] pub fn vp_ff_square(a: &Scalar) -> Scalar { <Scalar as Field>::square(a) }
+    #[no_mangle] #[inline(never)] pub fn vp_ff_double(a: &Scalar) -> Scalar { <Scalar as Field>::double(a) }
+    #[no_mangle] #[inline(never)] pub fn vp_ff_from_uniform_bytes(b: &[u8; 64]) -> Scalar { <Scalar as FromUniformBytes<64>>::from_uniform_bytes(b) }
+    #[no_mangle] #[inline(never)] pub fn vp_grp_ed_from_bytes(b: &[u8; 32], out: &mut EdwardsPoint) -> bool { let r = <EdwardsPoint as GroupEncoding>::from_bytes(b); let ok: bool = r.is_some().into(); *out = r.unwrap_or(<EdwardsPoint as crate::traits::Identity>::identity()); ok }
+    #[no_mangle] #[inline(never)] pub fn vp_grp_ed_to_bytes(a: &EdwardsPoint) -> [u8; 32] { <EdwardsPoint as GroupEncoding>::to_bytes(a) }
+    #[no_mangle] #[inline(never)] pub fn vp_grp_ris_from_bytes(b: &[u8; 32], out: &mut EdwardsPoint) -> bool { let r = <RistrettoPoint as GroupEncoding>::from_bytes(b); let ok: bool = r.is_some().into(); *out = r.unwrap_or(<RistrettoPoint as crate::traits::Identity>::identity()).0; ok }
+    #[no_mangle] #[inline(never)] pub fn vp_grp_ris_to_bytes(a: &EdwardsPoint) -> [u8; 32] { <RistrettoPoint as GroupEncoding>::to_bytes(&RistrettoPoint(*a)) }
+    #[no_mangle] #[inline(never)] pub fn vp_grp_clear_cofactor(a: &EdwardsPoint) -> EdwardsPoint { let s = <EdwardsPoint as CofactorGroup>::clear_cofactor(a); s.into() }
+    #[no_mangle] #[inline(never)] pub fn vp_grp_ed_double(a: &EdwardsPoint) -> EdwardsPoint { <EdwardsPoint as Group>::double(a) }
+    #[no_mangle] #[inline(never)] pub fn vp_grp_ed_is_identity(a: &EdwardsPoint) -> u8 { <EdwardsPoint as Group>::is_identity(a).unwrap_u8() }
+    #[no_mangle] #[inline(never)] pub fn vp_grp_ed_generator() -> EdwardsPoint { <EdwardsPoint as Group>::generator() }
+    #[no_mangle] #[inline(never)] pub fn vp_grp_ed_identity() -> EdwardsPoint { <EdwardsPoint as Group>::identity() }
+}
